@@ -1,16 +1,20 @@
 #!/bin/bash
-# tools/try_seed_wt.sh <seed-dir-or-patch> <PID> [tier]  — apply a seeded change to a scratch worktree of /repo
-# (so that /repo itself stays clean while other work is running), run the check against it, remove the worktree.
+# tools/try_seed_wt.sh <seed-dir-or-patch> <PID> [tier]
+# Apply a seeded change to a scratch worktree of /repo and run the check of <PID> against it FROM A SCRATCH COPY OF
+# /verif (rsync, build products included), so that neither /repo nor /verif (coq/Gen traces, evidence, .vo files) is
+# touched by a run against mutated code. Replay files of the run are copied to /verif/_work/replay_seed/.
 set -u
 src=$1; pid=$2; tier=${3:-quick}
 [ -d "$src" ] && patch=$src/patch.diff || patch=$src
 patch=$(readlink -f "$patch")
-wt=/tmp/seedwt_$$
+wt=/tmp/seedwt_$$; vc=/tmp/seedverif_$$
 git -C /repo worktree add -q "$wt" HEAD || exit 2
 ( cd "$wt" && git apply "$patch" ) || { echo "patch does not apply"; git -C /repo worktree remove --force "$wt"; exit 2; }
-cd /verif && GBASIS_REPO=$wt VERIF_EVIDENCE_DIR=/verif/_work/seed_evidence ./check "$pid" --tier "$tier" 2>&1 | grep -v "^WARNING conda" | tail -${TAILN:-4}
-rc=${PIPESTATUS[0]}
-git -C /repo worktree remove --force "$wt"
-# the trace translators rewrote coq/Gen/*.v from the mutated tree: put the committed (unchanged-tree) traces back
-git -C /verif checkout -- coq/Gen
+mkdir -p "$vc" && rsync -a --delete --exclude .git --exclude _work/replay --exclude _work/files /verif/ "$vc"/
+# the copy must start from the committed (unchanged-tree) traces
+for f in $(git -C /verif ls-files coq/Gen); do git -C /verif show HEAD:$f > "$vc/$f"; done
+( cd "$vc" && GBASIS_REPO=$wt ./check "$pid" --tier "$tier" 2>&1 | grep -v "^WARNING conda" | tail -${TAILN:-4}; exit ${PIPESTATUS[0]} )
+rc=$?
+mkdir -p /verif/_work/replay_seed && cp -f "$vc"/_work/replay/*.json /verif/_work/replay_seed/ 2>/dev/null
+git -C /repo worktree remove --force "$wt"; rm -rf "$vc"
 echo "check exit=$rc (1 = detected)"
